@@ -20,7 +20,7 @@ import numpy as np  # noqa: E402
 TIERS = {
     # case_cap: cases per specialisation; root_cap: scalar tuples per specialisation; ext: largest index the
     # definition may touch in an input / output; fills: guard and filler byte patterns (nuisance dimension)
-    "quick": dict(case_cap=40000, root_cap=2000, in_ext=16, out_ext=48, fills=(0x00, 0xFF), raw_cap=60000),
+    "quick": dict(case_cap=30000, root_cap=2000, in_ext=16, out_ext=48, fills=(0x00, 0xFF), raw_cap=60000),
     "thorough": dict(case_cap=40000, root_cap=3000, in_ext=24, out_ext=64, fills=(0x00, 0xFF, 0xA5),
                      raw_cap=150000),
 }
@@ -323,12 +323,14 @@ class Call(object):
         self.bufs = {}      # name -> Buf (or list of row Bufs for depth 2)
         self.rows = {}
         cargs = []
-        for a in spec["args"]:
+        fill0 = fill
+        for ai, a in enumerate(spec["args"]):
             name = a["name"]
             if a["depth"] == 0:
                 cargs.append(scalars[name])
                 continue
             obj = st.aux[name]
+            fill = e2.arg_fill(fill0, ai)
             if a["depth"] == 2:
                 rows = []
                 if isinstance(obj, e2.OutOuter):
@@ -336,16 +338,16 @@ class Call(object):
                     for r in range(nrows):
                         o = obj.rows.get(r)
                         n = extent(o.written) if o is not None else 0
-                        rows.append(e2.Buf(a["base"], n + (e2.GUARD if errored else 0), fill))
+                        rows.append(e2.Buf(a["base"], n + (e2.GUARD if errored else 0), e2.arg_fill(fill0, ai, r)))
                 else:
                     nrows = obj.maxext if preset is not None else extent(obj.vals)
                     for r in range(nrows):
                         c = obj.vals.get(r)
                         if c is None:
-                            rows.append(e2.Buf(a["base"], 0, fill))
+                            rows.append(e2.Buf(a["base"], 0, e2.arg_fill(fill0, ai, r)))
                         else:
                             n = c.maxext if preset is not None else max(extent(c.vals), extent(c.written))
-                            rows.append(e2.Buf(a["base"], n, fill, c.vals))
+                            rows.append(e2.Buf(a["base"], n, e2.arg_fill(fill0, ai, r), c.vals))
                 pb = e2.Buf("uint64_t", nrows, fill, {r: b.ptr() for r, b in enumerate(rows)})
                 self.rows[name] = rows
                 self.bufs[name] = pb
